@@ -32,7 +32,7 @@ theorem stepLocal_proceeded (F : Flags) (o : Obs) (x : Act) (ev : Ev) (y : Act) 
   step_local_cases h
   all_goals (first
     | (left; left; rw [‹x.phase = _›]; rfl)
-    | (left; right; simpa [pastJoin, Act.stop] using hy)
+    | (left; right; simpa [pastJoin, Act.stop, Act.stopDeps] using hy)
     | (right; exact ⟨_, ‹_›, ‹_›⟩))
 
 /-- the start of a non-deferred command (shell command or `task:` call) -/
